@@ -2,6 +2,7 @@ import Driver.Chanq
 import Driver.PeepholeEng
 import Driver.VerifyEng
 import Driver.AllocEng
+import Driver.C01Frag
 /-! `driver <engine>`: one request per line on stdin, one canonical line per request on stdout. -/
 
 partial def loop {σ : Type} (h : IO.FS.Stream) (out : IO.FS.Stream) (step : σ → String → σ × String) (s : σ) : IO Unit := do
@@ -18,6 +19,7 @@ def main (args : List String) : IO UInt32 := do
   | ["chanq"] => loop stdin stdout Driver.Chanq.step {}; return 0
   | ["peephole"] => loop stdin stdout Driver.PeepholeEng.step (); return 0
   | ["peepholex"] => loop stdin stdout Driver.PeepholeEng.stepX (); return 0
+  | ["c01frag"] => loop stdin stdout Driver.C01Frag.step (); return 0
   | ["alloc"] => loop stdin stdout Driver.AllocEng.step {}; return 0
   | ["encode"] => loop stdin stdout Driver.VerifyEng.stepEncode (); return 0
   | ["verify"] => loop stdin stdout Driver.VerifyEng.step (); return 0
